@@ -50,6 +50,7 @@ struct C09World {
   bool server_single = false, client_single = false;
   bool stable_etag = true;
   std::set<Bytes> etags_on_wire;
+  bool session_tokens = false;
   std::map<Bytes, int> wire_token_owner;   // token seen in a client request datagram -> transfer id (from its Uri-Query id=K)
   bool request_copy_delivered_twice = false;   // the network handed some client request datagram to the server more than once
   std::set<int> non_response_lost;         // transfers of which the network dropped a Non-confirmable response
@@ -174,7 +175,7 @@ struct C09 : Property {
     rule_text = "plan = block modes (single body / per block on either side) x MTU 64..1152 on either side x max block size on either side x 1..2 transfers (PUT upload or GET download, CON/NON, body length from the systematic set k*2^(szx+4)+{-1,0,1} and random 0..20000, second transfer concurrent or sequential) x faults (drop/dup/delay per datagram; first 600 indices: every single drop and single duplicate over the first 12 datagrams of each direction for a fixed upload and download). Non-trivial: a transfer needed more than one block and a fault fired; distinct = distinct event-trace hash.";
     real_components = {"libcoap client and server: coap_block.c (lg_xmit/lg_crcv/lg_srcv, coap_add_data_large_*, coap_handle_request_put_block/send_block, coap_handle_response_send_block/get_block), coap_net.c, coap_session.c, coap_pdu.c, coap_io.c"};
     stub_components = {"simk clock/UDP/epoll/timerfd", "wire tap with R1 decoder"};
-    assumptions = {"application tokens are 8 random bytes (never small integers that could collide with libcoap's own token counter)",
+    assumptions = {"application tokens are 8 random bytes, or (30% of the plans) whatever coap_session_new_token() hands out at submission",
                    "Q-Block is not enabled; server-side handlers necessarily see the wire token of the request that completed the body and are not judged on tokens"};
     quick_budget_s = 40;
     thorough_budget_s = 700;
@@ -205,7 +206,8 @@ struct C09 : Property {
       static const int blks[] = {0, 0, 0, 16, 32, 64, 128, 256, 512, 1024};
       int path_mtu = mtus[r.below(15)];     // one path MTU: both ends are configured with it (a receiver rejects larger datagrams)
       cfg = {{"c_single", r.chance(0.6)}, {"s_single", r.chance(0.6)}, {"c_mtu", path_mtu}, {"s_mtu", path_mtu},
-             {"c_maxblk", blks[r.below(10)]}, {"s_maxblk", blks[r.below(10)]}, {"stable_etag", r.chance(0.7)}};
+             {"c_maxblk", blks[r.below(10)]}, {"s_maxblk", blks[r.below(10)]}, {"stable_etag", r.chance(0.7)},
+             {"session_tokens", r.chance(0.3)}};      // tokens drawn from coap_session_new_token() at submission, as libcoap's own clients do
       int n = r.chance(0.65) ? 1 : 2;
       for (int i = 0; i < n; i++) {
         size_t len;
@@ -248,6 +250,7 @@ struct C09 : Property {
     cw.server_single = flag("s_single");
     cw.server_mtu = cfg.value("s_mtu", 0);
     cw.stable_etag = !cfg.contains("stable_etag") || flag("stable_etag");
+    cw.session_tokens = flag("session_tokens");
     w.add_node(nullptr);
     w.add_node(nullptr);
     cw.cctx = cx::new_context(w, 0);
@@ -317,6 +320,13 @@ struct C09 : Property {
         Xfer &x = cw.xf[i];
         coap_pdu_t *p = coap_new_pdu(x.con ? COAP_MESSAGE_CON : COAP_MESSAGE_NON, x.put ? COAP_REQUEST_CODE_PUT : COAP_REQUEST_CODE_GET, cw.sess);
         if (!p) { x.send_failed = true; return; }
+        if (cw.session_tokens) {
+          uint8_t tb[8];
+          size_t tl = 0;
+          coap_session_new_token(cw.sess, &tl, tb);
+          x.token.assign(tb, tb + tl);
+          w.count("probe.token_from_coap_session_new_token");
+        }
         coap_add_token(p, x.token.size(), x.token.data());
         coap_add_option(p, COAP_OPTION_URI_PATH, 2, (const uint8_t *)(x.put ? "up" : "dn"));
         std::string q = "id=" + std::to_string(x.id);
